@@ -54,7 +54,7 @@ CLASSES = [
     "currents_dict_unbalanced", "currents_callable_always", "currents_callable_after_t0", "currents_callable_window", "currents_callable_narrow_window",
     "unknown_terminal", "unknown_terminal_callable", "epsilon_constant", "epsilon_callable_somewhere", "dt_init_gt_dt_max", "terminal_psi_gt_1",
     "multiplier_out_of_range", "drag_out_of_range", "step_size_nonpositive", "tolerance_nonpositive", "unknown_solver", "gpu_without_cupy",
-    "terminal_off_boundary", "seed_other_layer", "seed_other_film", "seed_other_terminals", "seed_other_mesh", "vector_potential_shape",
+    "terminal_off_boundary", "terminal_point_contact", "seed_other_layer", "seed_other_film", "seed_other_terminals", "seed_other_mesh", "vector_potential_shape",
     "polygon_self_intersecting", "polygon_multiply_connected", "film_unnamed", "duplicate_terminal_names", "duplicate_hole_names",
     "probe_outside_film", "probe_in_hole",
 ]
@@ -63,13 +63,13 @@ NO_MAG = {"unknown_terminal", "unknown_terminal_callable", "unknown_solver", "gp
           "duplicate_hole_names", "probe_in_hole", "currents_callable_narrow_window"}
 
 
-VARIANT_CLASSES = {"terminal_psi_gt_1", "multiplier_out_of_range", "drag_out_of_range", "step_size_nonpositive", "tolerance_nonpositive",
+VARIANT_CLASSES = {"terminal_point_contact", "terminal_psi_gt_1", "multiplier_out_of_range", "drag_out_of_range", "step_size_nonpositive", "tolerance_nonpositive",
                    "unknown_solver", "seed_other_layer", "seed_other_terminals", "vector_potential_shape", "polygon_multiply_connected",
                    "currents_callable_window"}
 
 
 # classes that can be injected into any generated device (the others need a particular geometry and stay with the enumerated devices)
-GEN_CLASSES = [c for c in CLASSES if c not in ("terminal_off_boundary", "currents_callable_narrow_window", "polygon_self_intersecting",
+GEN_CLASSES = [c for c in CLASSES if c not in ("terminal_off_boundary", "terminal_point_contact", "currents_callable_narrow_window", "polygon_self_intersecting",
                                                "polygon_multiply_connected")]
 
 
@@ -106,6 +106,8 @@ def grid(tier):
                     continue
                 if cls == "terminal_off_boundary" and dname == "ellipse3":
                     continue  # curved outline: a shifted box still meets the outline elsewhere, which is a valid problem
+                if cls == "terminal_point_contact" and dname == "ellipse3":
+                    continue  # needs a film corner
                 variants = [0, 1, 2] if (tier != "quick" or cls in VARIANT_CLASSES) else [0]
                 for v in variants:
                     i += 1
@@ -259,6 +261,14 @@ def check_case(spec):
                 else:
                     t0["center"] = [cx, cy - np.sign(cy) * shift]
                 kw["terminal_currents"] = None
+            elif cls == "terminal_point_contact":
+                # the first terminal shrinks to a point contact on a film corner: it contains one boundary vertex of the mesh
+                # but no boundary edge, so it covers no boundary length and no current density can be assigned to it
+                t0 = dspec["terminals"][0]["shape"]
+                fw, fh = dspec["film"]["w"], dspec["film"]["h"]
+                sgn = [(-1, -1), (-1, 1), (1, 1)][v % 3]
+                size = 2e-2 * max(mag, 1e-4)
+                t0.update(w=size, h=size, center=[sgn[0] * fw / 2, sgn[1] * fh / 2])
             elif cls.startswith("seed_other"):
                 ds = copy.deepcopy(dspec)
                 if cls == "seed_other_layer":
